@@ -36,6 +36,8 @@ var (
 	fReplay  = flag.String("replay", "", "replay file")
 	fList    = flag.Bool("list", false, "list properties")
 	fCurFile = flag.String("cur", "", "file receiving the case being executed (internal)")
+	fSub     = flag.String("sub", "", "auxiliary sub-mode name (internal)")
+	fSubArg  = flag.String("arg", "", "argument of the sub-mode (internal)")
 	fShow    = flag.Bool("show", false, "with -replay: also print the distiller's result for the case")
 )
 
@@ -57,6 +59,14 @@ func main() {
 		fmt.Println(strings.Join(ids, " "))
 		return
 	}
+	if *fSub != "" {
+		f := eng.SubModes[*fSub]
+		if f == nil {
+			os.Exit(2)
+		}
+		quiet()
+		os.Exit(f(*fSubArg))
+	}
 	if *fReplay != "" {
 		os.Exit(replay(*fReplay))
 	}
@@ -66,6 +76,7 @@ func main() {
 	if *fTier != "thorough" {
 		*fTier = "quick"
 	}
+	eng.Tier = *fTier
 	if *fSeed == 0 {
 		if s := os.Getenv("VERIF_SEED"); s != "" {
 			*fSeed, _ = strconv.ParseInt(s, 10, 64)
@@ -124,6 +135,9 @@ func replay(path string) int {
 		return 2
 	}
 	quiet()
+	if r.Tier == "thorough" {
+		eng.Tier = r.Tier
+	}
 	if *fShow {
 		_, res, err, pi := ora.Run(r.Case)
 		fmt.Printf("HTML in: %s\nURL: %s algo=%d\n", r.Case.HTML, r.Case.URL, r.Case.Algo)
